@@ -50,6 +50,10 @@ func realMain() (code int) {
 	if len(args) > 0 && !strings.HasPrefix(args[0], "-") {
 		prop, args = args[0], args[1:]
 	}
+	multiList := ""
+	if prop == "multi" && len(args) > 0 {
+		multiList, args = args[0], args[1:]
+	}
 	if err := fs.Parse(args); err != nil {
 		return 2
 	}
@@ -65,8 +69,12 @@ func realMain() (code int) {
 		*tier = t
 	}
 
+	verifDir = *verif
 	if *replay != "" {
 		return doReplay(*replay, *repo, *verif)
+	}
+	if prop == "multi" {
+		return runMulti([]string{multiList}, *repo, *verif)
 	}
 	def := registry[prop]
 	if def == nil {
@@ -225,5 +233,69 @@ func doReplay(path, repo, verif string) int {
 		}
 	}
 	fmt.Printf("obligation %q no longer exists on this tree\n", rp.Obligation.Key)
+	return 0
+}
+
+// runMulti: load once, decide several properties, print one summary line per property (no evidence written).
+// Used by the seeded-defect matrix (tools/seed_matrix.py), not by registered checks.
+func runMulti(props []string, repo, verif string) int {
+	if len(props) == 1 {
+		props = strings.Split(props[0], ",")
+	}
+	p, err := loadProgram(loadOpts{repo: repo, needSSA: true})
+	if err != nil {
+		fmt.Println("MULTI load error:", strings.ReplaceAll(err.Error(), "\n", " "))
+		return 2
+	}
+	kfs, _ := loadKnownFindings(verif + "/known_findings.txt")
+	for _, id := range props {
+		def := registry[id]
+		if def == nil {
+			continue
+		}
+		func() {
+			r := newResult(id, "multi")
+			defer func() {
+				if rec := recover(); rec != nil {
+					fmt.Printf("MULTI %s exit=2 panic=%v\n", id, rec)
+				}
+			}()
+			def.fn(p, r)
+			known := map[string]bool{}
+			for _, k := range kfs {
+				if k.Kind == "finding" && k.Prop == id {
+					known[k.Key] = true
+				}
+			}
+			var viol, undec []string
+			for _, o := range r.Obls {
+				if o.Status == Violated && !known[o.Key] {
+					viol = append(viol, o.Key)
+				}
+				if o.Status == Undecided {
+					undec = append(undec, o.Key)
+				}
+			}
+			per := map[string]int{}
+			for _, o := range r.Obls {
+				if o.Status != Note {
+					per[o.Rule]++
+				}
+			}
+			for rule, floor := range r.Floors {
+				if per[rule] < floor {
+					undec = append(undec, fmt.Sprintf("floor %s %d<%d", rule, per[rule], floor))
+				}
+			}
+			exit := 0
+			if len(viol) > 0 {
+				exit = 1
+			} else if len(undec) > 0 {
+				exit = 2
+			}
+			b, _ := json.Marshal(map[string]any{"prop": id, "exit": exit, "violations": viol, "undecided": undec})
+			fmt.Println("MULTI " + string(b))
+		}()
+	}
 	return 0
 }
